@@ -1,6 +1,6 @@
 ------------------------------ MODULE MC_C19 ------------------------------
 EXTENDS Decode, Json
-CONSTANTS MaxLen, Win
+CONSTANTS MaxLen, Win, RunLens
 VARIABLES c
 vars == <<c>>
 Emit(rec) == PrintT(<<"REPLAY", ToJson(rec)>>)
@@ -10,6 +10,11 @@ Init ==
     \/ \E ctx \in VplContexts, s \in Seqs(VplBytes, MaxLen) : c = <<"vpl", ctx, s>> /\ Emit([k |-> "text", dec |-> "vpl", bytes |-> ctx \o s])
     \/ \E ctx \in CsvContexts, s \in Seqs(CsvBytes, MaxLen + 1) : c = <<"csv", ctx, s>> /\ Emit([k |-> "text", dec |-> "csv", bytes |-> ctx \o s])
     \/ \E i \in 0..Win, j \in 0..Win, d \in {"json", "csv", "vpl"} : c = <<"ring", d, i, j>> /\ Emit([k |-> "ring", dec |-> d, before |-> i, after |-> j])
+    \* runs of multi-byte characters (width 2..4) at every alignment (shift) before / around / after an error site, long enough to
+    \* cross every fixed-size window or truncation of an error context (the quantifier's "multi-byte UTF-8 at every position
+    \* relative to error sites")
+    \/ \E d \in {"json", "csv", "vpl"}, w \in 2..4, sh \in 0..3, n \in RunLens, site \in {"start", "middle", "end"} :
+            c = <<"mbrun", d, w, sh, n, site>> /\ Emit([k |-> "mbrun", dec |-> d, width |-> w, shift |-> sh, len |-> n, site |-> site])
     \/ \E f \in Formats : \E fld \in Fields[f], cl \in Classes : c = <<"bin", f, fld, cl>> /\ Emit([k |-> "bin", fmt |-> f, field |-> fld, class |-> cl])
     \/ \E d \in {"json", "vpl", "tilejson"}, depth \in {16, 64, 256} : c = <<"nest", d, depth>> /\ Emit([k |-> "nest", dec |-> d, depth |-> depth])
 Next == UNCHANGED vars
